@@ -74,11 +74,27 @@ func c06SetOrigin(req *http.Request, kind string) {
 		req.Header.Set("Origin", "https://"+vHostIdentity+":8443")
 	case "null":
 		req.Header.Set("Origin", "null")
+	case "other-prefix":
+		// another site whose host is a string prefix of ours
+		req.Header.Set("Origin", "https://"+vHost[:len(vHost)-1])
+	case "other-prefix-label":
+		req.Header.Set("Origin", "https://"+strings.SplitN(vHostIdentity, ".", 2)[0])
+	case "other-suffix":
+		req.Header.Set("Origin", "https://"+vHost+".evil.example")
+	case "referer-other-prefix":
+		req.Header.Set("Referer", "https://"+vHostIdentity[:len(vHostIdentity)-2]+"/x")
+	case "other-noport":
+		// our host name on the default port: another origin
+		req.Header.Set("Origin", "https://"+vHostIdentity)
 	}
 }
 
 func c06CrossSite(kind string) bool {
-	return kind == "other" || kind == "referer-other" || kind == "same-other-port"
+	switch kind {
+	case "other", "referer-other", "same-other-port", "other-prefix", "other-prefix-label", "other-suffix", "referer-other-prefix", "other-noport":
+		return true
+	}
+	return false
 }
 
 var c06GateWorld *vWorld
@@ -88,7 +104,7 @@ func c06GetGateWorld() *vWorld {
 		c06GateWorld = vNewWorld(vWorldOpts{
 			CertBackends: []string{"password"}, WebUIBackends: []string{"password"},
 			Users:           map[string]string{vUserAlice: vPwAlice, vUserRobot: "robot-pw"},
-			AutomationUsers: []string{vUserRobot}, NoDB: true, ForeignPeerKey: true, DenyFPs: []string{vDeniedFP()},
+			AutomationUsers: []string{vUserRobot}, NoDB: true, ForeignPeerKey: true, DenyFPs: vDenyList(),
 		})
 	}
 	return c06GateWorld
@@ -171,13 +187,13 @@ func c06GateCheck(c c06GateCase) *vResult {
 
 func TestVerifC06Gate(t *testing.T) {
 	vRunRapid(t,
-		"rapid: 16 masks (each handler mask and single bits) x credential recipe (cookie with any interesting bit set, 16 invalid cookie mutants, basic right/wrong, peer-signed cookie, 8 TLS shapes with realistic verified chains incl. deny-listed key and IP certificate inside/outside) x method x Origin/Referer class (absent, same, other site, other port, malformed, null, via Referer); non-trivial = a credential that parses (valid or a mutant) is presented; distinct = the tuple",
+		"rapid: 16 masks (each handler mask and single bits) x credential recipe (cookie with any interesting bit set, 16 invalid cookie mutants, basic right/wrong, peer-signed cookie, 8 TLS shapes with realistic verified chains incl. deny-listed key and IP certificate inside/outside) x method x Origin/Referer class (absent, same, other site, other port, default port, hosts that are a string prefix / suffix-extension of ours, malformed, null, via Referer); non-trivial = a credential that parses (valid or a mutant) is presented; distinct = the tuple",
 		func(t *rapid.T) c06GateCase {
 			return c06GateCase{
 				Mask:   rapid.SampledFrom(c06MaskNames()).Draw(t, "mask"),
 				Cred:   c06GenCred(t),
 				Method: rapid.SampledFrom([]string{"GET", "POST", "POST", "PUT", "DELETE", "OPTIONS", "HEAD", "PATCH"}).Draw(t, "method"),
-				Origin: rapid.SampledFrom([]string{"absent", "absent", "same", "other", "other", "malformed", "referer-same", "referer-other", "same-other-port", "null"}).Draw(t, "origin"),
+				Origin: rapid.SampledFrom([]string{"absent", "absent", "same", "other", "other", "malformed", "referer-same", "referer-other", "same-other-port", "null", "other-prefix", "other-prefix-label", "other-suffix", "referer-other-prefix", "other-noport"}).Draw(t, "origin"),
 			}
 		}, c06GateCheck)
 }
@@ -210,7 +226,7 @@ func c06GenRoute(t *rapid.T) c06RouteCase {
 	case 1:
 		// a valid cookie riding a cross-site request
 		c.Cred = vCred{Kind: "cookie", Bits: rapid.SampledFrom([]int{0xFFFF, AuthTypePassword | AuthTypeU2F, AuthTypePassword}).Draw(t, "bits")}
-		c.Origin = rapid.SampledFrom([]string{"other", "other", "referer-other", "same-other-port"}).Draw(t, "origin")
+		c.Origin = rapid.SampledFrom([]string{"other", "other", "referer-other", "same-other-port", "other-prefix", "other-prefix-label", "other-suffix", "referer-other-prefix", "other-noport"}).Draw(t, "origin")
 	default:
 		// the same-origin twin (liveness anchor, counted only)
 		c.Cred = vCred{Kind: "cookie", Bits: 0xFFFF}
@@ -281,7 +297,7 @@ func c06RouteWorld() *vWorld {
 		CertBackends: []string{"password", "U2F", "TOTP", "SymantecVIP", "IPCertificate"}, WebUIBackends: []string{"password"},
 		Users:      map[string]string{vUserAlice: vPwAlice, vUserBob: "bob-pw", vUserRobot: "robot-pw"},
 		AdminUsers: []string{vUserAlice}, AutomationUsers: []string{vUserRobot, vUserAlice}, AutomationAdmins: []string{vUserAlice},
-		EnableLocalTOTP: true, EnableBootstrapOTP: true, CliTokenLifetime: 3600e9, DenyFPs: []string{vDeniedFP()},
+		EnableLocalTOTP: true, EnableBootstrapOTP: true, CliTokenLifetime: 3600e9, DenyFPs: vDenyList(),
 	})
 	w.state.Config.OpenIDConnectIDP.Client = []OpenIDConnectClientConfig{{ClientID: "clientA", ClientSecret: "s", AllowedRedirectDomains: []string{"example.com"}}}
 	c06VIP = vNewFakeVIP()
